@@ -1,18 +1,60 @@
 (* Properties/C02.v — a Reader bound to a topic partition delivers exactly the partition's
-   records from its position, in order.  Only statements; every proof is [exact <lemma>]. *)
+   records from its position, in order.  Only statements; every proof is [exact <lemma>].
+
+   Structure: L1 (bytes) is meant to establish, for every broker response, the FETCH CONTRACT
+   [fetch_ok]; L2 (offsets) proves the delivery theorems for every run in which the current
+   generation's data responses obey that contract.  What is proved here:
+     - L2 in full (C02_delivery_exact, C02_setoffset_next, C02_generation_exact,
+       C02_conn_offset_advances_partial), under the contract as an explicit hypothesis on labels;
+     - L1 NOT proved in general: C02_batch_decode_exact_full_statement is kept as a Definition,
+       with machine-checked instances (vm_compute) and the byte-level differential as evidence;
+     - three refutations of the unrestricted L1 statements, with witnesses (the code has defects). *)
 From Coq Require Import List NArith ZArith Bool.
 From KV Require Import Lib.Bits Lib.Bytes Lib.Varint Model.MsgSetReader Model.ReaderModel Spec.FetchSpec
-  Proofs.ReaderRefute.
+  Proofs.ReaderRefute Proofs.ReaderProofs Proofs.ReaderLTS.
 Import ListNotations.
 Open Scope Z_scope.
 
-(* ---- refuted: Conn.offset after Batch.close can fall below the fetch offset (F1) ---- *)
+(* ------------------------------------------------------------------ L1: full statements *)
+Definition no_empty_batches (l : layout) : Prop := Forall (fun b => pb_recs b <> []) l.
+Fixpoint formats_ordered (f : Z) (l : layout) {struct l} : Prop :=
+  match l with [] => True | b :: t => f <= pb_fmt b /\ formats_ordered (pb_fmt b) t end.
+
+(* C02_batch_decode_exact (not proved; the exception "no record-less batch" is needed, see the
+   refutations): for every log, layout, fetch offset and legal cut, reading the batch to its
+   end yields exactly the stored records in [o, f) where f is Conn.offset after Batch.close
+   (f < o only inside a compacted hole), then io.EOF. *)
+Definition C02_batch_decode_exact_full_statement : Prop :=
+  forall (compress : Z -> list N -> list N) (decomp : Z -> list N -> option (list N)),
+    (forall c x, decomp c (compress c x) = Some x) ->
+  forall log l o k hwm,
+    log_ok log -> layout_ok log l -> formats_ordered 0 l -> no_empty_batches l ->
+    valid_cut compress l o k -> hwm <> o ->
+    exists fuel0 ms f, forall fuel, (fuel0 <= fuel)%nat ->
+      fetch_run decomp fuel o hwm (fetch_response compress l o k) (Z.of_nat k) false = Some (ms, EEOF, f)
+      /\ fetch_ok log o ms f
+      /\ (forall b, In b (from_offset l o) -> pb_codec b = 0 -> True).
+
+(* C02_progress (not proved): a response holding one complete batch with a record >= o delivers
+   at least one record *)
+Definition C02_progress_full_statement : Prop :=
+  forall (compress : Z -> list N -> list N) (decomp : Z -> list N -> option (list N)),
+    (forall c x, decomp c (compress c x) = Some x) ->
+  forall log l o k hwm fuel ms e f,
+    log_ok log -> layout_ok log l -> formats_ordered 0 l -> no_empty_batches l ->
+    valid_cut compress l o k -> hwm <> o ->
+    (exists b r, In b (firstn 1 (from_offset l o)) /\ In r (pb_recs b) /\ o <= r_off r) ->
+    fetch_run decomp fuel o hwm (fetch_response compress l o k) (Z.of_nat k) false = Some (ms, e, f) ->
+    e <> EFuel -> ms <> [].
+
+(* without the exception the statement about Conn.offset is false of the code: *)
 Definition C02_conn_offset_advances_full_statement : Prop := conn_offset_never_regresses.
 
 Theorem C02_empty_tail_batch_refuted : ~ C02_conn_offset_advances_full_statement.
 Proof. exact empty_tail_batch_refutes. Qed.
 Print Assumptions C02_empty_tail_batch_refuted.
 
+(* the 61-byte witness: fetch at 100, one retained record-less batch 100..104 -> Conn.offset = 1 *)
 Theorem C02_empty_tail_batch_witness :
   fetch_run no_decomp 100 100 101 (fetch_response no_compress f1_layout 100 61) 61 false = Some ([], EEOF, 1).
 Proof. exact f1_run. Qed.
@@ -22,7 +64,112 @@ Theorem C02_consecutive_empty_batches_panic_refuted : ~ fetch_never_panics.
 Proof. exact consecutive_empty_batches_panic. Qed.
 Print Assumptions C02_consecutive_empty_batches_panic_refuted.
 
+(* fetch offset 50 inside the compacted tail 48..50 of the first batch, response cut inside the
+   second batch: Conn.offset falls back to 48 (a hole: nothing lost, but the fetch repeats) *)
 Theorem C02_offset_regress_in_compacted_tail_witness :
   fetch_run no_decomp 100 50 52 (fetch_response no_compress g_layout 50 135) 135 false = Some ([], EEOF, 48).
 Proof. exact compacted_tail_then_partial_batch_regresses. Qed.
 Print Assumptions C02_offset_regress_in_compacted_tail_witness.
+
+(* ------------------------------------------------------------------ L2: proved *)
+(* one generation of the background fetcher: for every sequence of broker / network answers
+   (dial failures, ListOffsets values, data responses within the contract, kafka error codes,
+   transport errors, io.ErrNoProgress, OffsetOutOfRange look-ups), the messages it sends are the
+   stored records of a range [a, offset), in order, each once, fields as stored: a prefix of
+   the records from a on; a is the start offset when that is an absolute offset *)
+Theorem C02_generation_exact : forall run cfg log, increasing 0 log ->
+  forall o evs g' outs,
+  evs_ok run cfg log (gen_start o) evs -> gen_run run cfg (gen_start o) evs = Some (g', outs) ->
+  exists a rest, msgs_of outs = mm (between a (g_offset g') log)
+                 /\ mm (from a log) = msgs_of outs ++ rest /\ (0 <= o -> a = o).
+Proof. exact generation_exact. Qed.
+Print Assumptions C02_generation_exact.
+
+(* C02_conn_offset_advances, what does hold: whenever a generation is between two fetches, no
+   stored record lies between its restart offset (last sent + 1) and Conn.offset, in either
+   direction (Conn.offset may be ahead: compacted tail skipped; or behind: only inside a hole) *)
+Theorem C02_conn_offset_advances_partial : forall run cfg log o evs g' outs,
+  increasing 0 log ->
+  evs_ok run cfg log (gen_start o) evs -> gen_run run cfg (gen_start o) evs = Some (g', outs) ->
+  g_phase g' = PRead ->
+  empty log (g_offset g') (g_conn g') /\ empty log (g_conn g') (g_offset g').
+Proof. exact generation_conn_offset. Qed.
+Print Assumptions C02_conn_offset_advances_partial.
+
+(* C02_delivery_exact: for every label sequence (FetchMessage entries and receptions, SetOffset
+   calls, steps of any generation — stale ones answered arbitrarily, cancelled ones cut
+   anywhere — with the CURRENT generation's answers within the contract), what FetchMessage
+   returned since the last (re)start is a prefix of the stored records from some offset a:
+   increasing, no gap, no duplicate, fields as stored *)
+Theorem C02_delivery_exact : forall run cfg log, increasing 0 log ->
+  forall s s0, reach run cfg log s s0 -> exists a rest, mm (from a log) = r_delivered s ++ rest.
+Proof. exact delivery_exact. Qed.
+Print Assumptions C02_delivery_exact.
+
+(* C02_setoffset_next: SetOffset(o) with o different from the Reader's offset restarts the
+   fetcher at o with nothing delivered yet ... *)
+Theorem C02_setoffset_restarts : forall run cfg log s s0 o s' ret,
+  reach run cfg log s s0 -> r_version s <> 0 -> o <> r_offset s ->
+  r_step run cfg s (LSetOffset o) = RState s' ret ->
+  reach run cfg log s' o /\ r_delivered s' = [] /\ r_version s' = r_version s + 1.
+Proof. exact setoffset_restarts. Qed.
+Print Assumptions C02_setoffset_restarts.
+
+(* ... and whatever is returned afterwards (stale queue entries are filtered by version) is a
+   prefix of the stored records at or after o: the next message is the stored record with the
+   least offset >= o *)
+Theorem C02_setoffset_next : forall run cfg log, increasing 0 log ->
+  forall s s0, reach run cfg log s s0 -> r_version s <> 0 -> 0 <= s0 ->
+  exists rest, mm (from s0 log) = r_delivered s ++ rest.
+Proof. exact delivery_from_start. Qed.
+Print Assumptions C02_setoffset_next.
+
+(* the contract composes from one response (the heart of the no-gap / no-duplicate argument) *)
+Theorem C02_fetch_extends : forall log lo0 a l c ms f,
+  increasing lo0 log -> a <= l -> empty log l c -> empty log c l -> fetch_ok log c ms f ->
+  mm (between a l log) ++ ms = mm (between a (next_off ms l) log) /\ a <= next_off ms l /\ l <= next_off ms l
+  /\ empty log (next_off ms l) f /\ empty log f (next_off ms l).
+Proof. exact fetch_extends. Qed.
+Print Assumptions C02_fetch_extends.
+
+(* ------------------------------------------------------------------ non-vacuity / L1 instances *)
+Definition ex_recs : list record :=
+  [mkRec 10 ts0 (Some [1%N;2%N]) (Some [3%N]) [([104%N], [118%N])];
+   mkRec 12 (ts0 + 5) None (Some []) [];
+   mkRec 13 (ts0 + 6) (Some [7%N]) None []].
+(* a v1 gzip-style wrapper (identity codec), a v0 message, a v2 batch with head and tail holes,
+   a compressed v2 batch *)
+Definition ex_layout : layout :=
+  [mkPB 1 1 3 2 ts0 [mkRec 3 ts0 (Some [9%N]) (Some [8%N]) []; mkRec 5 (ts0+1) None (Some [6%N]) []];
+   mkPB 2 0 8 6 ts0 ex_recs;
+   mkPB 2 2 15 3 (ts0 + 7) [mkRec 16 (ts0 + 7) (Some [1%N]) (Some [2%N]) []]].
+
+Example C02_instance_whole :
+  fetch_run no_decomp 100 4 19 (fetch_response no_compress ex_layout 4 1000) (blen (fetch_bytes no_compress ex_layout 4)) false
+  = Some (map msg_of (from 4 (layout_records ex_layout)), EEOF, 19).
+Proof. vm_compute. reflexivity. Qed.
+
+(* cut in the middle of the second record of the v2 batch: record-granular delivery *)
+Example C02_instance_cut :
+  exists ms, fetch_run no_decomp 100 4 19 (fetch_response no_compress ex_layout 4 185) 185 false = Some (ms, EEOF, 11)
+             /\ fetch_okb (layout_records ex_layout) 4 ms 11 = true /\ length ms = 2%nat.
+Proof. eexists. split; [vm_compute; reflexivity|]. split; vm_compute; reflexivity. Qed.
+
+(* the Reader LTS: start, two fetches, SetOffset back to 5, stale answer ignored *)
+Definition ex_run := fetch_run no_decomp 100.
+Definition ex_cfg := mkCfg 3 false false.
+Definition ex_data (o : Z) := FData 19 (fetch_bytes no_compress ex_layout o) (blen (fetch_bytes no_compress ex_layout o)) false.
+Fixpoint run_labels (s : rstate) (ls : list label) {struct ls} : option rstate :=
+  match ls with
+  | [] => Some s
+  | l :: t => match r_step ex_run ex_cfg s l with RState s' _ => run_labels s' t | _ => None end
+  end.
+Example C02_instance_reader :
+  option_map r_delivered
+    (run_labels r_init
+       [LBegin; LGen 1 (GInit 3 19 3 19) 99; LGen 1 (GFetch (ex_data 3)) 99; LTake; LTake;
+        LSetOffset 12; LGen 1 (GFetch (ex_data 19)) 99;
+        LGen 2 (GInit 3 19 3 19) 99; LGen 2 (GFetch (ex_data 12)) 99;
+        LTake; LTake; LTake; LTake; LTake; LTake])
+  = Some (map msg_of (firstn 2 (from 12 (layout_records ex_layout)))).
+Proof. vm_compute. reflexivity. Qed.
